@@ -172,6 +172,16 @@ def Column.vals : Column → List Val
   | .flt xs => xs.map Val.flt
   | .str xs => xs.map Val.str
 
+/-- the refusal test read off the source: is a name that the conversion needs taken? -/
+def nameTakenG (refusal : List (String × String × Test)) (ps : List (Path × PObj)) (p : Path) (o : OldProp) :
+    Option Bool :=
+  match refusal with
+  | [] => some false
+  | e :: rest =>
+    match column o e.2.1, nameTakenG rest ps p o with
+    | some col, some r => some ((e.2.2.eval col && hasPath ps (extraPath p e.1)) || r)
+    | _, _ => none
+
 structure Acc where
   main : NewProp
   extras : List (Path × PObj)
